@@ -7,7 +7,7 @@ git apply /verif/seeded/$N/patch.diff || { echo "patch does not apply"; exit 2; 
 cd /verif
 for c in "$@"; do
   echo "---- $N vs $c ($T)"
-  timeout 3000 ./rv check $c --tier $T > /tmp/try_seeded.out 2>&1
+  RV_EVIDENCE_DIR=/tmp/rv-matrix-evidence timeout 3000 ./rv check $c --tier $T > /tmp/try_seeded.out 2>&1
   grep -E "key=" /tmp/try_seeded.out | cut -c1-220 | head -${SHOW:-3}
   grep -E "^$c $T" /tmp/try_seeded.out | cut -c1-200
 done
